@@ -430,3 +430,5 @@ def run(rep, prog, thorough):
     check_buffer_loop(rep, prog)
     check_strings(rep, prog)
     check_rendering(rep, prog)
+    from ..effects import check_no_memoised
+    check_no_memoised(rep, prog, 'C15.R5.string-lookup', ['io_drawer'], 'the trace strings of an earlier decode are reused although the string file given now may differ')
